@@ -425,7 +425,7 @@ def nt_verify(case, labels):
 
 
 VERIFY_CLASSES = ["valid", "malleated", "valid-z+n", "r-out", "s-out", "both-out", "other-key", "other-z", "random",
-                  "near", "infinity", "infinity", "infinity-rx", "infinity-rx", "r+n", "s+n", "close-x", "close-x", "structured-u", "structured-u", "structured-u"]
+                  "near", "infinity", "infinity", "infinity-rx", "infinity-rx", "same-y", "r+n", "s+n", "close-x", "close-x", "structured-u", "structured-u", "structured-u"]
 
 
 def _out_values(v0, n, i):
@@ -485,6 +485,14 @@ def _mk_verify(cv, d, z, k, cls, a1, a2):
             s = r * pow(t, -1, n) % n
         zz = (-r * d) % n
         if which == 3 and (a1 >> 4) % 2 and zz + n <= top:
+            zz += n
+    elif cls == "same-y" and cv == "k1":
+        # a valid triple built so that the two points verification adds, (z/s)G and (r/s)Q, are distinct points with the
+        # same ordinate (secp256k1: multiplication by a cube root of unity mod n keeps y): z = lambda^j * r * d
+        lam = pow(0x5363ad4cc05c30e0a5261c028812645a122e22ea20816678df02967c1b23bd72, 1 + a1 % 2, n)
+        zz = lam * r0 * d % n or 1
+        r, s, _R = refecdsa.sign_with_k(c, d, zz, k)
+        if (a1 >> 1) % 2 and zz + n <= top:
             zz += n
     elif cls == "close-x":
         # a valid triple built so that the two points verification adds, (z/s)G and (r/s)Q, have abscissas a chosen small
